@@ -151,6 +151,22 @@ Theorem C19_intern_sound : forall ir o c s, find_ok ir = true -> accept ir o c s
 Proof. exact accept_sound. Qed.
 Print Assumptions C19_intern_sound.
 
+(** dr_string_table_intern itself: a wrapper accepted by [wrap_ok] (find, append-if-new, return the index; no static
+    local in the interning functions, no writable data in dr_dump.o) runs exactly as the model [intern_sem], so
+    the table of a dump depends on nothing but the names of that dump *)
+Theorem C19_intern_wrapper : forall w ir o tbl s, wrap_ok w = true ->
+  wrun ir o s (w_body w) (tbl, 0) = Some (intern_sem ir o tbl s)
+  /\ w_static_locals w = 0%nat /\ w_data_symbols w = 0%nat.
+Proof. exact wrap_ok_sem. Qed.
+Print Assumptions C19_intern_wrapper.
+
+Example C19_intern_wrapper_example :
+  wrap_ok (mk_wrap_ir [WFind; WAppendIfNew; WReturnIdx] 0 0) = true /\
+  wrap_ok (mk_wrap_ir [WOther; WFind; WAppendIfNew; WOther; WOther; WReturnIdx] 2 2) = false /\
+  wrap_ok (mk_wrap_ir [WFind; WAppendIfNew; WReturnIdx] 1 0) = false /\
+  wrap_ok (mk_wrap_ir [WFind; WReturnIdx] 0 0) = false.
+Proof. repeat split. Qed.
+
 Example C19_intern_example :
   find_ok (mk_find_ir true true true [[APre 0; AStrcmp]]) = true /\
   find_ok (mk_find_ir true true true [[APre 0]]) = false /\
